@@ -62,23 +62,23 @@ type Event struct {
 
 // OpStats summarises the store calls made between BeginOp and EndOp.
 type OpStats struct {
-	Calls        int
-	ByKind       [nKinds]int
-	TxBegun      int
-	TxFinished   int // committed or rolled back
-	Commits      int // successful commits
+	Calls                int
+	ByKind               [nKinds]int
+	TxBegun              int
+	TxFinished           int // committed or rolled back
+	Commits              int // successful commits
 	CommitsAfterMutation int
-	MutatingTx   map[int]bool // tx ids that issued Set/Delete
-	Sets, Deletes int
-	ReadTxMutation bool // Set/Delete issued on a read-only transaction
-	Trace        []Event
-	IndexSeeks   int // cursor seeks landing in an index key class (coverage only)
-	DocSeeks     int
-	ReverseCursors int
-	IndexCursorKeys map[string]bool
-	Injected     int // faults injected
-	Runaway      bool
-	UseAfterFinish int // calls on a finished transaction
+	MutatingTx           map[int]bool // tx ids that issued Set/Delete
+	Sets, Deletes        int
+	ReadTxMutation       bool // Set/Delete issued on a read-only transaction
+	Trace                []Event
+	IndexSeeks           int // cursor seeks landing in an index key class (coverage only)
+	DocSeeks             int
+	ReverseCursors       int
+	IndexCursorKeys      map[string]bool
+	Injected             int // faults injected
+	Runaway              bool
+	UseAfterFinish       int // calls on a finished transaction
 }
 
 type Fault struct {
@@ -106,7 +106,7 @@ type Store struct {
 	budget  int // call budget for the operation (0 = unlimited)
 	trace   bool
 
-	poison bool
+	poison     bool
 	failCommit bool // the next Commit fails (one-shot), whatever its position
 
 	perturb Perturb
